@@ -86,21 +86,37 @@ def keys():
     return _KEYS
 
 
-EXPORTS = ["jwk-default", "jwk-private", "jwk-public", "pem", "der", "pem-public", "der-public", "pem-password", "der-password"]
+EXPORTS = ["jwk-default", "jwk-private", "jwk-public", "pem", "der", "pem-public", "der-public", "pem-password", "der-password", "pem-empty-password", "der-empty-password"]
 
 
 def h_roundtrip(ctx):
     label, spec = ctx.choose("key", keys())
     jwk = c13.resolve(spec)
     kty = jwk["kty"]
-    how = ctx.choose("origin", ["dict", "bytes"] if kty == "oct" else ["dict", "native", "pem", "der"])
+    how = ctx.choose("origin", ["dict", "bytes", "bytearray-wiped-afterwards"] if kty == "oct" else ["dict", "native", "pem", "der", "bytearray-wiped-afterwards"])
     private = ctx.choose("private", [True] if kty == "oct" else [True, False])
     params = ctx.deviate("parameters", [None, {"kid": "k1", "use": "sig"}, {"x5t": "t", "x5c": ["AAAA"], "key_ops": ["sign", "verify", "deriveKey"]}])
     form = ctx.choose("export", ["jwk-default", "jwk-private", "jwk-public"] if kty == "oct" else EXPORTS)
     hist = ctx.deviate("export_history", ["once", "twice", "with-params-then-plain", "mutate-result-then-again", "every-other-form-first"])
     tag = f"{kty}{'/' + jwk['crv'] if 'crv' in jwk else ''}"
     lab = f"{label} via {how} ({'private' if private else 'public'}) params={params} export={form} history={hist}"
-    if how == "dict" and params:
+    if how == "bytearray-wiped-afterwards":
+        # the caller reads the secret / the PEM text into a buffer, imports it, and wipes the buffer
+        from joserfc.jwk import OctKey, RSAKey, ECKey, OKPKey
+        cls_ = {"oct": OctKey, "RSA": RSAKey, "EC": ECKey, "OKP": OKPKey}[kty]
+        if kty == "oct":
+            buf = bytearray(b64.dec(jwk["k"]))
+        else:
+            buf = bytearray(A.jkey(jwk, "pem", private).as_pem(private=private))
+
+        def via_buffer():
+            key_ = cls_.import_key(buf, copy.deepcopy(params))
+            for i_ in range(len(buf)):
+                buf[i_] = 0
+            return key_
+        k = call(via_buffer)
+        given = {**(jwk if private else rjwk.public_of(jwk)), **(params or {})}
+    elif how == "dict" and params:
         k = call(A.jkey, {**(jwk if private else rjwk.public_of(jwk)), **copy.deepcopy(params)}, "dict")
         given = {**(jwk if private else rjwk.public_of(jwk)), **params}
     else:
@@ -118,7 +134,7 @@ def h_roundtrip(ctx):
             return key.as_dict(private=True)
         if form == "jwk-public":
             return key.as_dict(private=False)
-        enc, want_priv, pw = form.split("-")[0], not form.endswith("public"), PW if form.endswith("password") else None
+        enc, want_priv, pw = form.split("-")[0], not form.endswith("public"), (PW if form.endswith("-password") and "empty" not in form else ("" if "empty" in form else None))
         f = key.as_pem if enc == "pem" else key.as_der
         if form in ("pem", "der"):
             return f(password=None)
@@ -139,6 +155,14 @@ def h_roundtrip(ctx):
             if other != form:
                 call(export, other)
     e = call(export)
+    if "empty-password" in form:
+        # a password was asked for; an empty one cannot protect anything: refusing is fine, handing out an unprotected private key is not
+        vs0 = []
+        if e.ok and private:
+            plain = call(lambda: type(key).import_key(e.value))
+            if plain.ok and plain.value.is_private:
+                vs0.append(viol(f"an export asked with an (empty) password returns an unprotected private key ({tag}, {form})", lab))
+        return Outcome(f"empty-password:{'returned' if e.ok else 'refused'}", vs0, nontrivial=(label, how, private, form))
     exports_private = form in ("jwk-private", "pem-password", "der-password") or (form in ("jwk-default", "pem", "der") and private)
     if form in ("jwk-private", "pem-password", "der-password") and not private:
         if e.ok:
